@@ -5,7 +5,7 @@
    the updated checker).
 
    Stub: `MsgVariant::new(sig, &mut checker, msg_attr, attrs)` answers the variant made of exactly these and the checker with
-   one more entry in `used` (GenericsRefine.GEN); `attr_msg()` / `attrs_to_forward()` / `into_sig()` read the description. *)
+   one more entry in `used` (GenericsRefine.GEN); `attr_msg()` / `attrs_to_forward()` / `into_sig()` of the description are translated too (parser/variant_descs.rs). *)
 From Coq Require Import String List Bool Arith Lia.
 Require Import SV.Model.Imp SV.Model.GenImpGenerics SV.Facts.ImpFacts SV.Facts.MacroRefine SV.Facts.GenericsRefine.
 Import ListNotations.
@@ -17,8 +17,8 @@ Open Scope list_scope.
 Record desc := { d_msg : option (string * value); d_forward : value; d_sig : value }.
 Definition msg_attr_v (m : string * value) : value := VRec "MsgAttr" [("msg_type", kind_v (fst m)); ("other", snd m)].
 Definition desc_v (x : desc) : value :=
-  VRec "VariantDesc" [("attr_msg", match d_msg x with Some m => some (msg_attr_v m) | None => none end);
-                      ("attrs_to_forward", d_forward x); ("into_sig", d_sig x)].
+  VRec "VariantDesc" [("msg_attr", match d_msg x with Some m => some (msg_attr_v m) | None => none end);
+                      ("attrs_to_forward", d_forward x); ("sig", d_sig x)].
 
 Definition of_kind (ty : string) (x : desc) : bool := match d_msg x with Some (k, _) => k =? ty | None => false end.
 Definition variant_of (x : desc) : value :=
